@@ -484,7 +484,7 @@ theorem T_C19_tie_get_slice {β : Type} (G : List (List (List β))) (a idx : Nat
   · subst h2; rfl
   by_cases h0 : a = 0
   · subst h0; rfl
-  have hb : sliceBranch CBV.Gen.c19SliceSpec a = some ["shape.grid[index][loop]", "range(len(shape.grid[index]))"] := by
+  have hb : sliceBranch CBV.Gen.c19SliceSpec a = some ["shape.grid[v1][loop]", "range(len(shape.grid[v1]))"] := by
     have e2 : ((2 : Nat) == a) = false := by simpa using Ne.symm h2
     have e0 : ((0 : Nat) == a) = false := by simpa using Ne.symm h0
     by_cases h99 : a = 99
@@ -498,13 +498,14 @@ theorem T_C19_tie_get_slice {β : Type} (G : List (List (List β))) (a idx : Nat
 theorem T_C19_tie_stack_chop {β : Type} (G : List (List (List β))) :
     stackChopBy CBV.Gen.c19StackChop G = (stackChop G).map (·, 2) := rfl
 
-/-- `Grid.__init__`: the outer loop runs over the rows (`iy`, `count_2`), the inner one over the columns (`ix`, `count_1`) —
-    the order of `gridSketch`; `coords_1` are the x and `coords_2` the y coordinates with `count + 1` entries — `nodePos`; the four
-    points of the face made for `(ix, iy)` are `Face3.nodes` -/
+/-- `Grid.__init__` (names as the translator renames them in order of first appearance: v0 v1 = `point_1 point_2`, v2 v3 =
+    `count_1 count_2`, v4 v5 = `coords_1 coords_2`, v6 v7 = `iy ix`): the outer loop runs over the rows (v6 over v3), the inner one
+    over the columns (v7 over v2) — the order of `gridSketch`; v4 are the x coordinates (component 0, v2 + 1 entries) and v5 the y
+    coordinates — `nodePos`; the four points of the face made for `(ix, iy)` are `Face3.nodes` -/
 theorem T_C19_tie_grid_init :
-    CBV.Gen.c19GridLoops = [("iy", "count_2"), ("ix", "count_1")] ∧
-    CBV.Gen.c19GridCoords = [("coords_1", 0, "count_1"), ("coords_2", 1, "count_2")] ∧
-    CBV.Gen.c19GridPoints.all (fun p => p.1.1 == "coords_1" && p.1.2.1 == "ix" && p.2.1 == "coords_2" && p.2.2.1 == "iy") = true ∧
+    CBV.Gen.c19GridLoops = [("v6", "v3"), ("v7", "v2")] ∧
+    CBV.Gen.c19GridCoords = [("v4", 0, "v2"), ("v5", 1, "v3")] ∧
+    CBV.Gen.c19GridPoints.all (fun p => p.1.1 == "v4" && p.1.2.1 == "v7" && p.2.1 == "v5" && p.2.2.1 == "v6") = true ∧
     ∀ ix iy l, (⟨ix, iy, l⟩ : Face3).nodes = CBV.Gen.c19GridPoints.map (fun p => (ix + p.1.2.2, iy + p.2.2.2)) :=
   ⟨by decide, by decide, by decide, fun _ _ _ => rfl⟩
 
@@ -515,8 +516,8 @@ def modelledReturns : List (String × String) :=
    ("RoundHollowShape.shell", "self.operations"),                           -- `T_C19_annulus`
    ("LoftedShape.operations", "f.flatten_2d_list(self.lofts)"),             -- `operations`
    ("LoftedShape.grid", "self.lofts"),                                      -- `loftedGrid`
-   ("Stack.grid", "[shape.grid for shape in self.shapes]"),                 -- `stackGrid`
-   ("Stack.operations", "f.flatten_2d_list([shape.operations for shape in self.shapes])"),  -- `stackOps`
+   ("Stack.grid", "[v0.grid for v0 in self.shapes]"),                 -- `stackGrid`
+   ("Stack.operations", "f.flatten_2d_list([v0.operations for v0 in self.shapes])"),  -- `stackOps`
    ("Annulus.faces", "self.shell"), ("MappedSketch.faces", "self._faces"), ("Grid.faces", "f.flatten_2d_list(self.grid)")]
 
 theorem T_C19_tie_returns :
